@@ -24,7 +24,7 @@ RULE = (
 )
 REQUIRED = {
     "temp_configs_driven": 1500, "temp_updates_judged": 100000, "temp_degenerate_configs": 100, "temp_zero_annealing_configs": 40,
-    "temp_exact_schedule_configs": 500, "temp_off_configs": 100, "temp_refusals": 20,
+    "temp_exact_schedule_configs": 500, "temp_off_configs": 100, "temp_refusals": 20, "temp_second_runs_of_same_object": 300,
     "fit_runs_completed_or_judged": 12, "fit_temperature_updates": 150, "fit_sampler_calls_with_temperature": 500,
     "std_histories": 1000, "std_updates_judged": 30000, "std_adaptations": 2000, "std_blocks_lowered": 500, "std_blocks_raised": 500,
     "std_blocks_inside_band": 500, "std_blocks_exactly_on_band": 100, "std_window_comparisons": 30000,
@@ -172,6 +172,23 @@ def drive(cfg):
             return dict(out, status="raised", exc=f"{type(e).__name__}: {e}", exc_type=type(e).__name__, where=f"update {k}")
         out["temps"].append(algo.temperature)
         out["invs"].append(algo.temperature_inv)
+    if cfg.get("rerun"):
+        # the SAME algorithm object is run a second time (as `algo.run(model_b, ...)` after `algo.run(model_a, ...)` does): the
+        # schedule must restart from the initial temperature and follow the same envelope
+        second = {"temps": [], "invs": [], "A": out["A"], "exc": None, "where": None}
+        try:
+            algo._initialize_annealing()
+            second["temps"].append(algo.temperature)
+            second["invs"].append(algo.temperature_inv)
+            for k in range(1, cfg["n_iter"] + 1):
+                algo.current_iteration = k
+                algo._update_temperature()
+                second["temps"].append(algo.temperature)
+                second["invs"].append(algo.temperature_inv)
+            second["status"] = "ran"
+        except Exception as e:  # noqa: BLE001
+            second.update(status="raised", exc=f"{type(e).__name__}: {e}", exc_type=type(e).__name__, where="second run")
+        out["second"] = second
     return dict(out, status="ran")
 
 
@@ -238,11 +255,15 @@ def _temp_grid(spec, ctx):
         rng = ctx.rng("temp", spec["k"], i)
         cfg = gen_temp_config(rng, i)
         case = {"index": i, **cfg}
+        cfg["rerun"] = bool(i % 3 == 0)
         obs = drive(cfg)
         ctx.evaluated()
         ctx.count("temp_configs_driven")
         ctx.count(f"temp_class_{cfg['cls']}")
-        judge_temperature(ctx, cfg, obs, case)
+        bad = judge_temperature(ctx, cfg, obs, case)
+        if not bad and obs.get("second") is not None:
+            ctx.count("temp_second_runs_of_same_object")
+            judge_temperature(ctx, cfg, obs["second"], dict(case, run="second run of the same algorithm object"), prefix="[second run of the same algorithm object] ")
         if cfg["on"] and obs["status"] != "refused":
             ctx.distinct("temp", cfg["algo"], cfg["n_iter"], obs["A"], str(cfg["T0"]), cfg["P"])
         if i < 2:
